@@ -9,6 +9,7 @@ def outputSites : List (String × String) := [
   ("output.rs", "eprint!"),
   ("splash.rs", "println!"),
   ("splash.rs", "println!"),
+  ("standard_library/file_system.rs", "eprintln!"),
   ("standard_library/io.rs", "display!"),
   ("standard_library/io.rs", "io::stdout"),
   ("standard_library/io.rs", "display!"),
